@@ -415,7 +415,7 @@ theorem lastPackageSegment_dotted {pkg : Str} (h : Dotted pkg) : Dotted (lastPac
   · exact h
 
 /-- a file in scope: every piece of it is, the version text, the parent package (when there is one)
-and the innermost package name are dotted identifier fragments.  (Since the `fix:` commit fb91590
+and the innermost package name are dotted identifier fragments.  (Since the `fix:` commit 653aee1
 the package name need not contain a dot: `package object <last> {` / `package <last> {` are always
 written, so their closing braces are always matched.) -/
 structure FileOk (f : ScFile) : Prop where
